@@ -93,6 +93,7 @@ class TableEngine:
         self._pre_height = 0
         self.n_probe = 0
         self._restore_xml = None
+        self._pre_xml = None
         self.twin = None  # C10: the other TableSUT
         self.n_law = 0
         self.n_twin_ops = 0
@@ -134,11 +135,13 @@ class TableEngine:
     # ------------------------------------------------------------ generators
     def _val(self, rng):
         self.counter += 1
-        kind = rng.weighted([("int", 6), ("str", 3), ("none", 1), ("bool", 0.3)], "vkind")
+        kind = rng.weighted([("int", 6), ("str", 3), ("none", 1), ("bool", 0.3), ("multiline", 0.4 if self.prop == "C17" else 0)], "vkind")
         if kind == "int":
             return self.counter
         if kind == "str":
             return f"s{self.counter}"
+        if kind == "multiline":
+            return f"s{self.counter}\nline{self.counter}"
         if kind == "bool":
             return bool(self.counter % 2)
         return None
@@ -384,6 +387,15 @@ class TableEngine:
             spec = {"cols": cols, "rows": rows, "string_attr": rng.chance(0.5, "strattr")}
             if rng.chance(0.1, "hdr") and len(rows) > 1:
                 spec["header_rows"] = 1
+            # shapes other producers write: column declarations inside wrappers, a span with covered cells
+            if rng.chance(0.15, "wrapcols"):
+                spec["wrap_cols"] = rng.choice(["columns", "header"], "wrapkind")
+            if rng.chance(0.12, "initspan") and len(rows) >= 2:
+                r0, r1 = rows[0], rows[1]
+                if r0["cells"] and r1["cells"] and (r0.get("r", 1) == 1) and (r1.get("r", 1) == 1) and r0["cells"][0].get("r", 1) == 1 and r1["cells"][0].get("r", 1) == 1:
+                    r0["cells"][0]["cs"] = 1
+                    r0["cells"][0]["rs"] = 2
+                    r1["cells"][0]["cov"] = True
             init["spec"] = spec
         elif fam == "sample":
             f, i = rng.choice(SMALL_SAMPLES, "sample")
@@ -788,6 +800,11 @@ class TableEngine:
             return self._oracles(op, tv, [], None, {}, initial=True)
         tv = self.sut.view()
         self._pre_height = tv.height
+        self._pre_xml = None
+        if self.prop != "C01":
+            from lxml import etree as _et
+
+            self._pre_xml = _et.tostring(ts.lx(self.sut.table), encoding="unicode")
         feats = ts.features(op, tv) if name in ts.GRID_MUTATIONS else []
         self.stats.transitions.add((ts.shape_class(tv), name if name != "read" else "read:" + op["kind"], tuple(feats)))
         for f in feats:
@@ -857,6 +874,10 @@ class TableEngine:
             if sut_exc is not None:
                 # not this property's business: rebuild and go on (deliberately narrow)
                 self.stats.probe("sut_raised_skipped")
+                # a raising operation is C01's business; here the run goes on from the table
+                # as it was before the call (a half-applied change is not a state to explore)
+                if self._pre_xml is not None:
+                    self._restore_xml = self._pre_xml
                 self.resync()
                 # a half-applied operation may legitimately leave the XML
                 # structurally odd: re-baseline the structural rules
